@@ -38,10 +38,14 @@ var (
 	reRSave     = regexp.MustCompile(`\(\*decorator\.Package\)\.save#`)
 	reRErrors   = regexp.MustCompile(`#errors:|error_returned_before|decorating_functions_never_store`)
 	reRImports  = regexp.MustCompile(`updateImports(\$\d+)?#loop|#imports:|#imports-path:`)
+	reRAttach   = regexp.MustCompile(`\(\*decorator\.fileDecorator\)\.(link|findDecoration|findIndentedComments|attachToDecoration|fragment|addNodeFragments|add\w+Fragment)#|#attach:|^decorator\.append(Decoration|NewLine)#`)
 	reRDecList  = regexp.MustCompile(`\(\*dst\.Decorations\)\.(\w+)#`)
 )
 
 func replayFor(obligation string) *replaySpec {
+	if reRAttach.MatchString(obligation) {
+		return &replaySpec{"attach", "comments", "decorator", "decorator_test.go.part"}
+	}
 	if reRErrors.MatchString(obligation) {
 		return &replaySpec{"errors", "resolvers", "decorator", "decorator_test.go.part"}
 	}
